@@ -653,6 +653,72 @@ fn special_cases(quick: bool, deep: bool, out: &mut JobOut) {
     }
 }
 
+// ------------------------------------------------------------------------------------------
+// builder call orders: the builders are type-state builders whose calls can come in any order and
+// can be repeated (the last call of a kind wins). Every sequence of up to 3 calls must behave like
+// the canonical expression of the configuration it denotes: same verdict, same error kind, same
+// answers.
+
+use ndarray::Array2;
+
+fn obs1<S>(r: Result<Result<ndarray_interp::interp1d::Interp1D<ndarray::OwnedRepr<f64>, ndarray::OwnedRepr<f64>, Ix1, S>, ndarray_interp::BuilderError>, String>) -> String
+where
+    S: ndarray_interp::interp1d::Interp1DStrategy<ndarray::OwnedRepr<f64>, ndarray::OwnedRepr<f64>, Ix1>,
+{
+    match r {
+        Err(p) => format!("panic: {p}"),
+        Ok(Err(e)) => format!("Err({})", builder_err_kind(&e)),
+        Ok(Ok(ip)) => {
+            let q = [-3.5, -3.0, -1.0, 0.0, 0.5, 3.0, 4.0, 5.0, 6.5, 7.0, 8.0];
+            let v: Vec<String> = q.iter().map(|&x| match catch(|| ip.interp_scalar(x)) { Ok(Ok(v)) => format!("{:#x}", v.to_bits()), Ok(Err(_)) => "OutOfBounds".to_string(), Err(_) => "panic".to_string() }).collect();
+            format!("Ok[{}]", v.join(","))
+        }
+    }
+}
+
+fn obs2<S>(r: Result<Result<ndarray_interp::interp2d::Interp2D<ndarray::OwnedRepr<f64>, ndarray::OwnedRepr<f64>, ndarray::OwnedRepr<f64>, Ix2, S>, ndarray_interp::BuilderError>, String>) -> String
+where
+    S: ndarray_interp::interp2d::Interp2DStrategy<ndarray::OwnedRepr<f64>, ndarray::OwnedRepr<f64>, ndarray::OwnedRepr<f64>, Ix2>,
+{
+    match r {
+        Err(p) => format!("panic: {p}"),
+        Ok(Err(e)) => format!("Err({})", builder_err_kind(&e)),
+        Ok(Ok(ip)) => {
+            let q = [(-0.5, 0.0), (0.0, 0.0), (1.5, -2.0), (3.0, 1.0), (2.0, 3.5), (7.0, 5.0), (8.0, 1.0), (1.0, 6.0)];
+            let v: Vec<String> = q.iter().map(|&(x, y)| match catch(|| ip.interp_scalar(x, y)) { Ok(Ok(v)) => format!("{:#x}", v.to_bits()), Ok(Err(_)) => "OutOfBounds".to_string(), Err(_) => "panic".to_string() }).collect();
+            format!("Ok[{}]", v.join(","))
+        }
+    }
+}
+
+include!("../gen/c10_orders.rs");
+
+fn builder_call_orders(out: &mut JobOut) {
+    let d1 = Array1::from(vec![1.0, -2.0, 4.0, 0.5, 3.0]);
+    let xa = Array1::from(vec![0.0, 1.0, 2.0, 4.0, 7.0]);
+    let xb = Array1::from(vec![-3.0, -1.0, 0.0, 2.0, 5.0]);
+    let xbad = Array1::from(vec![0.0, 2.0, 1.0, 4.0, 7.0]);
+    let mut check = |name: &str, got: String, cname: &str, want: String| {
+        out.evals += 1;
+        out.states += 1;
+        out.transitions += 1;
+        out.nontrivial += 1;
+        out.outcome(format!("call-order:{}", got.split(['[', '(']).next().unwrap_or("")));
+        if got != want {
+            out.violate(
+                format!("call-order:{name}"),
+                format!("the builder calls [{name}] give {got}, the configuration they denote, built as [{cname}], gives {want}"),
+                Json::str(name),
+            );
+        }
+    };
+    builder_orders_1d(&d1, &xa, &xb, &xbad, &mut check);
+    let d2 = Array2::from_shape_fn((5, 4), |(i, j)| ((i * 4 + j) as f64 * 0.37).sin() * 3.0);
+    let yb = Array1::from(vec![-2.0, 0.0, 1.0, 5.0]);
+    let ybad = Array1::from(vec![-2.0, 0.0, 0.0, 5.0]);
+    builder_orders_2d(&d2, &xa, &xbad, &yb, &ybad, &mut check);
+}
+
 fn body(ctx: &Ctx) -> (Summary, Meta) {
     // the former thorough bounds cost under a second: they are the quick tier now
     let quick = false;
@@ -683,12 +749,13 @@ fn body(ctx: &Ctx) -> (Summary, Meta) {
     sum.merge(run_jobs(ctx, "special-cases", &[()], |_| "special".to_string(), |_| {
         let mut out = JobOut::default();
         special_cases(quick, deep, &mut out);
+        builder_call_orders(&mut out);
         out.states = out.evals;
         out.sample = Some(Json::str("long axes with one defect at every position; aliased axis views; f32 default axis of 2^24+2 points"));
         out
     }));
     let meta = Meta {
-        rule: "full factorial decision table. 1-D: data rank {dynamic 0, static and dynamic 1..3} x length 0..min+2 x axis {default, explicit of length n-1, n, n+1} x order pattern {increasing, tie / adjacent swap / NaN at each position, decreasing, +inf last, empty, single} x strategy {Linear, CubicSpline NotAKnot, Periodic with ends equal / unequal in each lane / NaN, Individual with boundary array shape ok / wrong leading / wrong trailing / wrong rank}; 2-D: x-factors x y-factors x rank {dynamic 0, 1, ok}, non-square. Oracle: valid iff no requirement violated; otherwise the returned BuilderError kind must belong to the kinds of the violated requirements; never a panic. Plus special cases: long axes (up to 257 / 1025 points) with a tie, a dip or NaN at every position for Interp1D and both axes of Interp2D; x and y as views into one table starting at the same element (column and row), the same view for both axes, the axis as a view of the data; the default index axis of 2^24+2 f32 values (not strictly increasing after the cast). Non-trivial = input with at least one violated requirement.".into(),
+        rule: "full factorial decision table. 1-D: data rank {dynamic 0, static and dynamic 1..3} x length 0..min+2 x axis {default, explicit of length n-1, n, n+1} x order pattern {increasing, tie / adjacent swap / NaN at each position, decreasing, +inf last, empty, single} x strategy {Linear, CubicSpline NotAKnot, Periodic with ends equal / unequal in each lane / NaN, Individual with boundary array shape ok / wrong leading / wrong trailing / wrong rank}; 2-D: x-factors x y-factors x rank {dynamic 0, 1, ok}, non-square. Oracle: valid iff no requirement violated; otherwise the returned BuilderError kind must belong to the kinds of the violated requirements; never a panic. Plus special cases: long axes (up to 257 / 1025 points) with a tie, a dip or NaN at every position for Interp1D and both axes of Interp2D; x and y as views into one table starting at the same element (column and row), the same view for both axes, the axis as a view of the data; the default index axis of 2^24+2 f32 values (not strictly increasing after the cast). Non-trivial = input with at least one violated requirement. Builder call orders: every sequence of 0..3 calls over {x(A), x(B), x(not increasing), strategy(Linear), strategy(Linear+extrapolate), strategy(CubicSpline)} (1-D) and {x, x(bad), y, y(bad), strategy(Bilinear), strategy(Bilinear+extrapolate)} (2-D) - 518 expressions - gives the verdict, error kind and answers of the canonical expression of the configuration it denotes (the last call of a kind wins).".into(),
         bounds: format!("{n1} 1-D cases + {n2} 2-D cases (every combination of simultaneous violations); tier {}", ctx.tier.name()),
         assumptions: vec!["an axis with fewer than 2 points counts as not strictly increasing (consistent with C12)".into()],
         extra: vec![],
